@@ -20,7 +20,9 @@ RULE = (
     "V, T; Kruskal-Wallis H with tie correction) and given a three-valued viability (exact frequencies, "
     "numpy.isclose-tolerant rate distinctness, dev frequency / distinctness / rank agreement); then the missing "
     "value placements of every admissible stage-1 result. A kept feature must be an admissible optimum, a "
-    "dropped one must have a search without surely-viable candidate. Non-trivial: k >= 3 and >= 2 surely-viable "
+    "dropped one must have a search without surely-viable candidate. Plus a structured family of 144 exact-tie "
+    "samples (U / zig-zag rate profiles, missing values tying with a group, namings whose alphabetical order "
+    "differs from the ranking) enumerated completely on every run. Non-trivial: k >= 3 and >= 2 surely-viable "
     "candidates with different measures."
 )
 BOUNDS = {"rows": "12-400", "base_buckets": "<=~25 (max_n_mod limited to 3/4 for min_freq .02/.05: cost)", "max_n_mod": "2-7"}
@@ -35,7 +37,7 @@ STR_NAN = "__NAN__"
 
 
 def strategy(tier):
-    return fitted_case(("BinaryCarver", "ContinuousCarver"))
+    return fitted_case(("BinaryCarver", "ContinuousCarver"), twin_boost=True)
 
 
 def bucket_indices(order, raws, quantitative):
@@ -268,3 +270,67 @@ def check_case(case) -> Outcome:
         feat = spec["name"]
         check_feature(out, case, sample, carver, feat in kept, feat, spec, base, tr)
     return out
+
+
+# ----------------------------------------------------------------------------- enumerated tie family
+def tie_family():
+    """A small structured family enumerated completely on every run: 3-4 ordinal modalities under every naming
+    whose alphabetical order differs from (or equals) the ranking, target-rate profiles with exact ties between
+    non-adjacent groups / between the missing values and the last group / between adjacent groups, with and
+    without missing values, for every measure and max_n_mod in {3, 4}."""
+    import itertools
+
+    profiles = [
+        # (rows per modality, ones per modality, missing rows, missing ones)
+        ([50, 50, 50], [10, 25, 10], 50, 40),  # U shape, outer groups tie
+        ([50, 50, 50], [10, 25, 10], 0, 0),
+        ([20, 40, 30], [2, 24, 3], 30, 18),  # missing values tie with the middle group
+        ([20, 20, 40], [2, 2, 12], 20, 6),  # adjacent tie + missing values tie with the last group
+        ([40, 40, 40, 40], [8, 20, 8, 30], 40, 30),  # zig-zag with a non-adjacent tie
+        ([30, 30, 30, 30], [6, 15, 24, 15], 30, 3),
+    ]
+    namings = [("A", "C", "B", "D"), ("B", "A", "D", "C"), ("A", "B", "C", "D"), ("D", "C", "B", "A")]
+    for (rows, ones, n_nan, ones_nan), names, sort_by, max_n_mod in itertools.product(profiles, namings, ("cramerv", "tschuprowt", "kruskal"), (3, 4)):
+        k = len(rows)
+        values = list(names[:k])
+        level1 = list(ones) + [ones_nan]
+        level0 = [r - o for r, o in zip(rows, ones)] + [n_nan - ones_nan]
+        if sort_by == "kruskal":
+            # continuous target with three levels: zeros, ones, and a few twos taken from the ones of the first group
+            twos = [min(2, level1[0])] + [0] * k
+            level1 = [a - b for a, b in zip(level1, twos)]
+            target = {"kind": "continuous", "levels": [0, 1, 2], "blocks": [sum(level0), sum(level1), sum(twos)]}
+            table = [level0, level1, twos]
+            cls = "ContinuousCarver"
+        else:
+            target = {"kind": "binary", "levels": [0, 1], "blocks": [sum(level0), sum(level1)]}
+            table = [level0, level1]
+            cls = "BinaryCarver"
+        yield {
+            "target": target, "dev_blocks": None,
+            "features": [{"name": "o0", "kind": "ordinal", "values": values, "ranking": values, "train": table, "dev": None}],
+            "key": 3, "index": "range",
+            "config": {"cls": cls, "min_freq": 0.1, "min_freq_mod": None, "max_n_mod": max_n_mod, "dropna": True, "output_dtype": "float",
+                       "copy": True, "sort_by": sort_by, "n_jobs": 1},
+        }
+
+
+def extra_run(tier, seed_value, findings):
+    from core.outcome import case_hash
+
+    evaluations, nontrivial, violations, known = 0, set(), [], {}
+    for case in tie_family():
+        outcome = check_case(case)
+        evaluations += 1
+        if outcome.status == "discard":
+            continue
+        if outcome.nontrivial:
+            nontrivial.add(case_hash(case))
+        for sig, msg in outcome.all_violations():
+            if findings.match_open(PID, sig):
+                known[sig] = known.get(sig, 0) + 1
+            elif not any(v[0] == sig for v in violations):
+                violations.append((sig, "[tie family] " + msg, case))
+    return {"evaluations": evaluations, "nontrivial": nontrivial, "violations": violations, "known_hits": known,
+            "classes": {"tie_family_case": evaluations},
+            "coverage": {"tie_family_cases": evaluations, "tie_family_note": "structured family of exact-tie samples enumerated completely (6 rate profiles x 4 namings x 3 measures x 2 max_n_mod)"}}
